@@ -669,6 +669,9 @@ def bare_class_case(ctx, k):
             init.setdefault(sid.split(".")[0], {})[sid.split(".")[1]] = descr
         else:
             init[sid] = descr
+    # (... and one refers to an id that is a built-in item of the package's own class: here it is nobody's item until
+    # somebody registers it)
+    init["TITLE"] = "NAME:underline"
     want = {"B0.ROOT": (red, None, frozenset({'bold'})), "B0.KID": (red, blue, frozenset({'bold'})),
             "B1.GRAND": (red, blue, frozenset({'underline'})), "SOLO": (green, None, frozenset()),
             "B1.LAST": (red, blue, frozenset({'underline', 'bold'})), "ECHO": (green, None, frozenset())}
@@ -684,6 +687,18 @@ def bare_class_case(ctx, k):
                                                        "init": str(init)[:300]}, case)
         return
     ctx.count("configuration_classes_without_built_in_items")
+    try:
+        before = shown_state(conf.get_color("TITLE"))
+        conf.add_new_items({"NAME": "BLUE"}, "a component of the application")
+        after = shown_state(conf.get_color("TITLE"))
+    except Exception as err:
+        ctx.violation("registration-raises", {"type": type(err).__name__, "msg": str(err)[:120]}, case)
+        return
+    if before != sgr.DEFAULT or after != (blue, None, frozenset({'underline'})):
+        ctx.violation("formatter-differs-from-resolved-description",
+                      {"ids": ["TITLE"], "shown": repr((before, after))[:200],
+                       "step": "an id the package's own class has as a built-in item, in a class without built-in items"}, case)
+        return
     if got != want or got_pal != (want["B1.LAST"], want["ECHO"]):
         bad = sorted(sid for sid in want if got.get(sid) != want[sid])
         ctx.violation("formatter-differs-from-resolved-description",
